@@ -100,7 +100,15 @@ func checkContain(root string, c containCase) string {
 		// "a=>TARGET": dir/a is a symbolic link. The targets: a directory outside
 		// the target directory (relative and absolute), a directory inside it, an
 		// existing file outside, and nothing (dangling, pointing outside).
-		if t, ok := strings.CutPrefix(c.Pre, "a=>"); ok {
+		if t, ok := strings.CutPrefix(c.Pre, "a/l=>"); ok {
+			// dir/a is a real directory, dir/a/l a symbolic link
+			os.MkdirAll(filepath.Join(parent, "outdir"), 0o777)
+			os.MkdirAll(filepath.Join(dir, "a", "sub"), 0o777)
+			t = strings.ReplaceAll(t, "$PARENT", parent)
+			if err := os.Symlink(t, filepath.Join(dir, "a", "l")); err != nil {
+				kit.Harness("symlink: %v", err)
+			}
+		} else if t, ok := strings.CutPrefix(c.Pre, "a=>"); ok {
 			os.MkdirAll(filepath.Join(parent, "outdir"), 0o777)
 			os.MkdirAll(filepath.Join(dir, "sub"), 0o777)
 			t = strings.ReplaceAll(t, "$PARENT", parent)
@@ -512,6 +520,18 @@ func main() {
 			if n != "a/../../x" {
 				cases = append(cases, containCase{Names: []string{n}, Pre: pre, ViaX: true})
 			}
+		}
+	}
+	// a pre-existing directory a holding a symbolic link l: entries through the
+	// link, alone and after entries that went into a itself (a decision about a
+	// must not be taken for everything below a)
+	for _, pre := range []string{"a/l=>../../outdir", "a/l=>$PARENT/outdir", "a/l=>sub", "a/l=>../../sibling.txt", "a/l=>../../nothing", "a/l=>..", "a/l=>../.."} {
+		for _, n := range []string{"a/l/x", "a/l", "a/l/b/c", "a/sub/../l/x", "a/ok"} {
+			cases = append(cases, containCase{Names: []string{n}, Pre: pre},
+				containCase{Names: []string{"a/ok", n}, Pre: pre},
+				containCase{Names: []string{"a/sub/ok", "a/ok2", n}, Pre: pre},
+				containCase{Names: []string{"b", n, "a/ok"}, Pre: pre},
+				containCase{Names: []string{"a/ok", n}, Pre: pre, ViaX: true})
 		}
 	}
 	// the target directory does not exist yet: every name alone, and after an
